@@ -250,6 +250,95 @@ theorem module_faults_rejected (fuel : Nat) (ctx : PRef → Option (List (String
     have := h3 kc hkc
     rw [hs] at this; cases this
 
+/-- **… and nothing well-formed is refused by the passes** (the converse of `module_accepts_only_wellformed`, with `resolve_total`):
+    a module of fragment F1 whose namespace is a namespace, all of whose instances are well-formed and whose expressions hold no
+    empty concatenation, goes through `Orphanage, ConnTypes, SliceResolver, ConnTypesRepeat, OrphanageRepeat` — with the fuel
+    `fuelOf h`, computed from the module.  What is left to the exporter is its one documented refusal, a stepped slice taken
+    directly from a Signal (DESIGN 6.0).  So the composed passes accept *exactly* the well-formed modules. -/
+theorem module_elaboration_accepts (ctx : PRef → Option (List (String × Nat))) (h : HModule) (hm : ModOK ctx h)
+    (hwf : ∀ i ∈ h.instances, InstWF ctx (sigList h) i)
+    (hne : ∀ i ∈ h.instances, ∀ pc ∈ i.conns, pc.2.noEmpty = true) :
+    ∃ e, elabModule (fuelOf h) ctx h = .ok e := by
+  obtain ⟨_, _, _, _, hcn, hctx⟩ := hm
+  -- the first two passes
+  have ho : orphanage h = true := by
+    unfold orphanage
+    rw [List.all_eq_true]; intro i hi
+    rw [List.all_eq_true]; intro pc hpc
+    obtain ⟨_, _, _, _, h4⟩ := hwf i hi
+    exact h4 pc hpc
+  have hc : connTypes ctx h = true := by
+    unfold connTypes
+    rw [List.all_eq_true]; intro i hi
+    obtain ⟨ports, hcr, h1, h2, _⟩ := hwf i hi
+    simp only [hcr]
+    exact (ConnTypes.passes_iff ports i.conns (hctx _ _ hcr) (hcn i hi)).mpr ⟨h1, h2⟩
+  -- every connection has a width (it sits on a port), hence a denotation, hence is resolved
+  have hwid : ∀ i ∈ h.instances, ∀ pc ∈ i.conns, ∃ w, pc.2.width = .ok w := by
+    intro i hi pc hpc
+    obtain ⟨ports, hcr, h1, h2, _⟩ := hwf i hi
+    obtain ⟨pw, hpw, hpn⟩ := List.mem_map.mp (h2 pc hpc)
+    obtain ⟨c, hcm, hw⟩ := h1 pw hpw
+    have : c = pc.2 := by
+      have hx : (pw.1, pc.2) ∈ i.conns := by rw [hpn]; exact hpc
+      exact (ConnTypes.unique_conn i.conns pw.1 c pc.2 (hcn i hi) hcm hx).symm
+    exact ⟨pw.2, this ▸ hw⟩
+  have hres : ∀ i ∈ h.instances, ∀ pc ∈ i.conns, ∃ r, resolveSliceable (fuelOf h) pc.2 = .ok r := by
+    intro i hi pc hpc
+    obtain ⟨w, hw⟩ := hwid i hi pc hpc
+    obtain ⟨bs, hd, _⟩ := width_denote pc.2 w hw
+    obtain ⟨r, hr, _⟩ := Hdl21.Props.C03.resolve_total pc.2 bs hd (hne i hi pc hpc) (fuelOf h) (needR_le_fuelOf h i hi pc hpc)
+    exact ⟨r, hr⟩
+  obtain ⟨is, his⟩ := resolveInsts_total (fuelOf h) h.instances hres
+  have hs : sliceResolver (fuelOf h) h = .ok ⟨h.name, h.signals, h.ports, is⟩ := by unfold sliceResolver; rw [his]
+  obtain ⟨_, _, _, hrel⟩ := sliceResolver_inv hs
+  have hsl : sigList (⟨h.name, h.signals, h.ports, is⟩ : HModule) = sigList h := rfl
+  -- the repeats: a resolved connection has the width and the signals of the written one
+  have hkeep : ∀ i ∈ h.instances, ∀ pc ∈ i.conns, ∀ r, resolveSliceable (fuelOf h) pc.2 = .ok r →
+      r.width = pc.2.width ∧ sigsOK (sigList h) r = true := by
+    intro i hi pc hpc r hr
+    obtain ⟨w, hw⟩ := hwid i hi pc hpc
+    obtain ⟨bs, hd, hl⟩ := width_denote pc.2 w hw
+    have hrd := Hdl21.Props.C03.resolve_preserves_bits (fuelOf h) pc.2 r bs hr hd
+    obtain ⟨_, _, _, _, h4⟩ := hwf i hi
+    refine ⟨by rw [denote_width r bs hrd, hw, hl], ?_⟩
+    exact (resolve_keeps (fun c => sigsOK (sigList h) c = true) (by
+      constructor
+      · intro p idx; rw [sigsOK]
+      · intro ps; rw [sigsOK]
+        induction ps with
+        | nil => simp [sigsOKList]
+        | cons p ps ih => simp [sigsOKList, ih]) (fuelOf h)).2.2.1 pc.2 r hr (h4 pc hpc)
+  have hc' : connTypes ctx ⟨h.name, h.signals, h.ports, is⟩ = true := by
+    unfold connTypes
+    rw [List.all_eq_true]; intro r hr
+    obtain ⟨i, hi, r1, r2, r3, rcs⟩ := forall2_mem_right hrel r hr
+    obtain ⟨ports, hcr, h1, h2, _⟩ := hwf i hi
+    simp only [r2, hcr]
+    have hnd : (r.conns.map (·.1)).Nodup := by
+      rw [forall2_map_eq (f := fun (pc : String × SConn) => pc.1) (g := fun (pc : String × SConn) => pc.1) (fun a b hr => hr.1) rcs]
+      exact hcn i hi
+    refine (ConnTypes.passes_iff ports r.conns (hctx _ _ hcr) hnd).mpr ⟨?_, ?_⟩
+    · intro pw hpw
+      obtain ⟨c, hcm, hw⟩ := h1 pw hpw
+      obtain ⟨pr, hprm, e1, hrs⟩ := forall2_mem_left rcs (pw.1, c) hcm
+      refine ⟨pr.2, ?_, ?_⟩
+      · have : pr = (pw.1, pr.2) := Prod.ext e1 rfl
+        rw [← this]; exact hprm
+      · rw [(hkeep i hi (pw.1, c) hcm pr.2 hrs).1]; exact hw
+    · intro kc hkc
+      obtain ⟨pc, hpc, e1, _⟩ := forall2_mem_right rcs kc hkc
+      rw [e1]; exact h2 pc hpc
+  have ho' : orphanage ⟨h.name, h.signals, h.ports, is⟩ = true := by
+    unfold orphanage
+    rw [List.all_eq_true]; intro r hr
+    rw [List.all_eq_true]; intro kc hkc
+    obtain ⟨i, hi, _, _, _, rcs⟩ := forall2_mem_right hrel r hr
+    obtain ⟨pc, hpc, _, hrs⟩ := forall2_mem_right rcs kc hkc
+    rw [hsl]
+    exact (hkeep i hi pc hpc kc.2 hrs).2
+  exact ⟨⟨h.name, h.signals, h.ports, is⟩, by unfold elabModule; simp [ho, hc, hs, hc', ho']⟩
+
 /-- non-vacuity: a well-formed module gets through; the same module with bit 2 of a two-bit bus, with a port left open, with a
     three-bit connection on a two-bit port, with a signal of another module, is refused -/
 example :
